@@ -97,7 +97,11 @@ type Sched struct {
 
 // Step is a further Send on the same Broker: registry calls made after the previous Send, then the Send.
 type Step struct {
-	Ops   []Op  `json:"ops,omitempty"`
+	Ops []Op `json:"ops,omitempty"`
+	// Async: registry calls a third party makes on a goroutine of its own after Ops and before this step's Send — while the
+	// previous Send of the sequence may still have a node parked inside Process; the driver gives them 30 ms to finish
+	// or block, then calls Send; they count as made before the Send (on a correct tree they finish at once)
+	Async []Op `json:"async,omitempty"`
 	Ety   int   `json:"ety"`
 	Gate  []int `json:"gate,omitempty"`
 	Sched Sched `json:"sched"`
@@ -698,6 +702,8 @@ type Result struct {
 	LatencyUs  int64      `json:"latency_after_cancel_us,omitempty"`
 	Goroutines string     `json:"goroutines,omitempty"`
 	Leaked     string     `json:"goroutines_left_by_this_send,omitempty"`
+	AsyncBlocked bool     `json:"third_party_registry_call_did_not_finish_within_30ms,omitempty"`
+	SnapshotBlocked bool  `json:"read_only_registry_snapshot_blocked_for_2s,omitempty"`
 	Panic      string     `json:"panic,omitempty"`
 	HoldTO     int        `json:"hold_timeouts,omitempty"`
 	RecvTO     int        `json:"recv_timeouts,omitempty"`
@@ -770,8 +776,24 @@ func (w *world) startSend(etyN int, gate []int, sched Sched) *flight {
 		r.rnd = hc.NewRand(sched.Jitter)
 	}
 	res := &f.res
-	roots, ok := b.VerifRoots(ety(etyN))
-	res.HasGraph = ok
+	// the read-only snapshot goes through the Broker's lock: on a wedged Broker it must not wedge the driver
+	type snapT struct {
+		roots map[el.PipelineID][]el.VerifLinkedRef
+		ok    bool
+	}
+	snapCh := make(chan snapT, 1)
+	go func() {
+		rs, ok := b.VerifRoots(ety(etyN))
+		snapCh <- snapT{rs, ok}
+	}()
+	var roots map[el.PipelineID][]el.VerifLinkedRef
+	select {
+	case sn := <-snapCh:
+		roots, res.HasGraph = sn.roots, sn.ok
+	case <-time.After(2 * time.Second):
+		res.SnapshotBlocked = true
+		res.HasGraph = true
+	}
 	for id, chain := range roots {
 		sp := snapPipe{Pid: unN(string(id))}
 		for k, l := range chain {
@@ -950,11 +972,32 @@ func execCase(c Case) []Result {
 	}
 	steps := append([]Step{{Ety: c.Ety, Gate: c.Gate, Sched: c.Sched}}, c.Then...)
 	results := make([]Result, len(steps))
+	type asyncCall struct {
+		step int
+		done chan struct{}
+	}
+	var asyncs []asyncCall
+	asyncBlocked := map[int]bool{}
 	var held *flight
 	heldAt := -1
 	for i, st := range steps {
 		for _, op := range st.Ops {
 			w.apply(op, &c)
+		}
+		if len(st.Async) > 0 {
+			done := make(chan struct{})
+			asyncs = append(asyncs, asyncCall{i, done})
+			go func(ops []Op) {
+				defer close(done)
+				for _, op := range ops {
+					w.apply(op, &c)
+				}
+			}(st.Async)
+			select {
+			case <-done:
+			case <-time.After(30 * time.Millisecond):
+				asyncBlocked[i] = true
+			}
 		}
 		f := w.startSend(st.Ety, st.Gate, st.Sched)
 		if st.Sched.HoldGate && f.res.Returned && i+1 < len(steps) {
@@ -974,6 +1017,15 @@ func execCase(c Case) []Result {
 	}
 	if held != nil {
 		results[heldAt] = held.finish()
+	}
+	// every registry call of a third party must have returned by now (all gates are open, all Sends are over)
+	for _, a := range asyncs {
+		results[a.step].AsyncBlocked = asyncBlocked[a.step]
+		select {
+		case <-a.done:
+		case <-time.After(2 * time.Second):
+			results[a.step].Leaked += "a registry call made concurrently with the Sends never returned\n" + graphGoroutines()
+		}
 	}
 	return results
 }
@@ -1162,6 +1214,7 @@ func (e *emitter) runSeq(c Case) []Result {
 		e.nextID++
 		st := steps[i]
 		hist = append(hist, st.Ops...)
+		hist = append(hist, st.Async...)
 		view := Case{ID: e.nextID, Gen: c.Gen, Hist: append([]Op{}, hist...), Ety: st.Ety, Beh: c.Beh, Gate: st.Gate, Sched: st.Sched}
 		e.account(view, res, len(results) > 1)
 		if err := e.cf.Add(caseLit(view, res)); err != nil {
@@ -1212,6 +1265,9 @@ func (e *emitter) account(c Case, res Result, inSeq bool) {
 	}
 	if res.Leaked != "" {
 		e.stats["goroutines_left_after_send"]++
+	}
+	if res.AsyncBlocked {
+		e.stats["third_party_registry_call_blocked"]++
 	}
 	if !res.HasGraph {
 		e.stats["no_graph"]++
@@ -1302,6 +1358,7 @@ func main() {
 	nRandom := flag.Int("random", 300, "random: configurations")
 	seqRandom := flag.Int("sequence-random", 20, "sequence: random multi-Send sequences in addition to all ordered pairs of registry mutations")
 	twoReps := flag.Int("twosend-reps", 3, "twosend: repetitions of the (cancelled Send with a parked node, independent Send) pair per Broker")
+	twoGates := flag.Int("twosend-gates", 2, "twosend: gated positions (root nodes first) for the third-party registry calls")
 	perShard := flag.Int("per-shard", 250, "cases per file")
 	corpus := flag.String("corpus", "", "corpus file (JSON lines), run first")
 	corpusRepeat := flag.Int("corpus-repeat", 5, "runs per corpus case")
@@ -1358,6 +1415,7 @@ func main() {
 			genSequence(e, r.Fork(), *seqRandom)
 		case "twosend":
 			genTwoSend(e, r.Fork(), *twoReps)
+			genTwoSendThirdParty(e, *twoGates)
 		case "cancel":
 			n := genCancel(e, r.Fork(), *cancelRandom, *cancelReps)
 			summary["cancel_positions_forced"] = n
